@@ -120,17 +120,20 @@ impl BlacklistConfig {
     ///
     /// A server listening on `[::]` sees its IPv4 clients as IPv4-mapped IPv6 addresses
     ///   (`::ffff:a.b.c.d`), so such an address is compared in its IPv4 form as well.
+    ///
+    /// The same goes for the entries of the list: `::ffff:a.b.c.d` and `a.b.c.d` name the same
+    ///   host, whichever of the two spellings the list and the connection happen to use.
     pub fn contains(&self, address: &IpAddr) -> bool {
-        if self.list.contains(address) {
-            return true;
+        fn ipv4_form(address: &IpAddr) -> IpAddr {
+            match address {
+                IpAddr::V6(v6) => v6.to_ipv4_mapped().map_or(*address, IpAddr::V4),
+                IpAddr::V4(_) => *address,
+            }
         }
 
-        match address {
-            IpAddr::V6(v6) => v6
-                .to_ipv4_mapped()
-                .map_or(false, |v4| self.list.contains(&IpAddr::V4(v4))),
-            IpAddr::V4(_) => false,
-        }
+        let address = ipv4_form(address);
+
+        self.list.iter().any(|entry| ipv4_form(entry) == address)
     }
 }
 
